@@ -255,6 +255,9 @@ def _run(mask, order, ck, clen, pathi, prov, fault_step, fault_kind):
                      methods, ck, clen, prov, used, best)
     elif st['challenge'] is not None:
         used = 'SAFECOOKIE'
+    if fault_step == 0 and cookie_usable and not st['auth_cmds']:
+        return R('no-authentication-although-a-valid-cookie-method-is-advertised', 'methods %r path %r: sent %r; ready: ok=%d %r',
+                 methods, path, st['lines'], boot.ok, boot.exc())
     # ---- S3: raw cookie never on the wire except as COOKIE with a 32-byte cookie
     if cookie_hex and len(cookie) >= 1 and cookie_hex.lower() in all_wire:
         if not (used == 'COOKIE' and len(cookie) == 32):
